@@ -28,7 +28,8 @@ InTable == << <<100000, 0, 294>>,       \* plenty of change
               <<11000, 10000, 294>>,    \* required output, inputs cannot pay the higher rates
               <<50000, 49000, 330>> >>  \* required output nearly everything (wallet top-up too small)
 MCReq == {[budget |-> b, weight |-> w, maxrate |-> m, relay |-> Relay, totalin |-> i[1], reqout |-> i[2],
-           dust |-> i[3], deadline |-> H0 + Conf0, sopt |-> s, est |-> x] :
+           dust |-> i[3], deadline |-> H0 + Conf0, sopt |-> s, est |-> x,
+           prevmax |-> IF s > 0 THEN s ELSE 0] :
             b \in Budgets, w \in Weights, m \in MaxRates, i \in {InTable[k] : k \in InSets}, s \in Dec(Sopts), x \in Dec(Ests)}
 
 MCHeights == H0..(H0 + Conf0 + 1)
